@@ -946,3 +946,302 @@ theorem ackInv_act (w : World) (a : Act) (hs : ∀ tid t, a = .spawn tid t → h
       · simp only [he, if_false] at hget
         exact h.1 tid' t' hget x hx
     · exact h.2
+
+/-! ### appends in flight (C23: schedules whose applies are quiet) -/
+
+/-- the node and key of a PUT task that is between its lease refresh and its write, and whether it has passed the check -/
+def flightOn : Task → Option (Nat × Key × Bool)
+  | .putRefreshed c => some (c.e, c.key, false)
+  | .putChecked c => some (c.e, c.key, true)
+  | .putLocked c => some (c.e, c.key, true)
+  | _ => none
+
+def freshNode (s : NodeSt) : Prop := s.leaseApplied = s.applied
+
+/-- every append in flight runs on a node whose lease set is current, and once checked its key is in that set -/
+def FlightInv (w : World) : Prop :=
+  ∀ tid t, w.tasks.get? tid = some t → ∀ e k chk, flightOn t = some (e, k, chk) →
+    freshNode (w.node e) ∧ (chk = true → k ∈ (w.node e).leases)
+
+theorem fresh_coreStep (s s' : NodeSt) (n : Nat) (hs : NodeOk s n) (hf : freshNode s) (h : CoreStep s s' n) :
+    freshNode s' ∧ s'.leases = s.leases := by
+  rcases h with h | h
+  · simp only [core, Prod.mk.injEq] at h
+    obtain ⟨_, h2, h3, h4⟩ := h
+    exact ⟨by unfold freshNode at *; rw [h4, h2]; exact hf, h3⟩
+  · simp only [core, updateLeases, Prod.mk.injEq] at h
+    obtain ⟨h1, h2, h3, h4⟩ := h
+    refine ⟨by unfold freshNode; rw [h4, h2], ?_⟩
+    rw [h3, hs.2.2 hf]
+
+theorem getLoop_fl (w : World) (tid n : Nat) (topic : Name) (seg del : Nat) :
+    ∃ t', (getLoop w tid n topic seg del).1.tasks = w.tasks.insert tid t' ∧ flightOn t' = none := by
+  unfold getLoop
+  simp only
+  split
+  · exact ⟨_, rfl, rfl⟩
+  · split
+    · exact ⟨_, rfl, rfl⟩
+    · exact ⟨_, rfl, rfl⟩
+
+theorem monLoop_fl (w : World) (tid n : Nat) (l : List (Name × Nat)) :
+    ∃ t', (monLoop w tid n l).1.tasks = w.tasks.insert tid t' ∧ flightOn t' = none := by
+  induction l generalizing w with
+  | nil => exact ⟨_, rfl, rfl⟩
+  | cons p r ih =>
+    obtain ⟨topic, seg⟩ := p
+    unfold monLoop
+    simp only
+    split
+    · exact ih w
+    · exact ⟨_, rfl, rfl⟩
+
+/-- what a step does to the stepping task, as far as flights are concerned -/
+inductive FStep (w w' : World) (tid : Nat) : Prop where
+  | unchanged (h : w'.tasks = w.tasks)
+  | landed (t' : Task) (h : w'.tasks = w.tasks.insert tid t') (hn : flightOn t' = none)
+  | flying (t' : Task) (h : w'.tasks = w.tasks.insert tid t') (e : Nat) (k : Key) (chk : Bool)
+      (hf : flightOn t' = some (e, k, chk)) (hfresh : freshNode (w'.node e)) (hmem : chk = true → k ∈ (w'.node e).leases)
+
+theorem stepTask_fstep (w : World) (tid : Nat) (hF : FlightInv w) : FStep w (stepTask w tid).1 tid := by
+  unfold stepTask
+  split
+  · exact .unchanged rfl
+  · exact .unchanged rfl
+  · -- putStart
+    split
+    · exact .landed _ rfl rfl
+    · simp only
+      split
+      · exact .landed _ rfl rfl
+      · rename_i ts _ _
+        refine .flying _ rfl ts.leaderNode _ false rfl ?_ (fun h => by cases h)
+        show freshNode ((w.setNode ts.leaderNode (updateLeases (w.node ts.leaderNode) ts.leaderNode)).node ts.leaderNode)
+        rw [node_setNode]; simp [freshNode, updateLeases]
+  · -- putRefreshed
+    rename_i c hc
+    have hold := hF tid _ hc c.e c.key false rfl
+    simp only
+    split
+    · rename_i hmem
+      refine .flying _ rfl c.e c.key true rfl hold.1 (fun _ => ?_)
+      show c.key ∈ (w.node c.e).leases
+      simpa using hmem
+    · split
+      · rename_i hmem
+        refine .flying _ rfl c.e c.key true rfl ?_ ?_
+        · show freshNode ((w.setNode c.e (updateLeases (w.node c.e) c.e)).node c.e)
+          rw [node_setNode]; simp [freshNode, updateLeases]
+        · intro _
+          show c.key ∈ ((w.setNode c.e (updateLeases (w.node c.e) c.e)).node c.e).leases
+          rw [node_setNode]; simp only [if_true]; simpa using hmem
+      · exact .landed _ rfl rfl
+  · -- putChecked
+    rename_i c hc
+    have hold := hF tid _ hc c.e c.key true rfl
+    simp only
+    split
+    · exact .unchanged rfl
+    · refine .flying _ rfl c.e c.key true rfl ?_ ?_
+      · show freshNode ((w.setNode c.e _).node c.e)
+        rw [node_setNode]; simp only [if_true]; exact hold.1
+      · intro h
+        show c.key ∈ ((w.setNode c.e _).node c.e).leases
+        rw [node_setNode]; simp only [if_true]; exact hold.2 h
+  · exact .landed _ rfl rfl
+  · exact .landed _ rfl rfl
+  · exact .landed _ rfl rfl
+  · split
+    · exact .landed _ rfl rfl
+    · exact .landed _ rfl rfl
+  · split
+    · exact .landed _ rfl rfl
+    · exact .unchanged rfl
+  · -- getStart
+    rename_i n topic _
+    simp only
+    split
+    · exact .unchanged rfl
+    · obtain ⟨t', h1, h2⟩ := getLoop_fl (w.setNode n { (w.node n) with cursorLocked := true }) tid n topic
+        (((w.node n).cursors.get? topic).getD (0, 0)).1 (((w.node n).cursors.get? topic).getD (0, 0)).2
+      exact .landed t' h1 h2
+  · -- getPlanned
+    rename_i n topic seg del cur leader _
+    simp only
+    split
+    · exact .landed _ rfl rfl
+    · split
+      · exact .landed _ rfl rfl
+      · split
+        · obtain ⟨t', h1, h2⟩ := getLoop_fl w tid n topic (seg + 1) 0
+          exact .landed t' h1 h2
+        · exact .landed _ rfl rfl
+  · exact .landed _ rfl rfl
+  · obtain ⟨t', h1, h2⟩ := monLoop_fl w tid _ _
+    exact .landed t' h1 h2
+  · split
+    · obtain ⟨t', h1, h2⟩ := monLoop_fl w tid _ _
+      exact .landed t' h1 h2
+    · exact .unchanged rfl
+
+theorem flightInv_step (w : World) (tid : Nat) (hL : LeaseInv w) (hF : FlightInv w) : FlightInv (stepTask w tid).1 := by
+  -- other tasks: their node's core is unchanged or refreshed, which keeps a current lease set as it is
+  have others : ∀ tid' t, w.tasks.get? tid' = some t → ∀ e k chk, flightOn t = some (e, k, chk) →
+      freshNode ((stepTask w tid).1.node e) ∧ (chk = true → k ∈ ((stepTask w tid).1.node e).leases) := by
+    intro tid' t hget e k chk hfl
+    obtain ⟨h1, h2⟩ := hF tid' t hget e k chk hfl
+    obtain ⟨h3, h4⟩ := fresh_coreStep _ _ e (hL e) h1 (stepTask_core w tid e)
+    exact ⟨h3, fun hc => by rw [h4]; exact h2 hc⟩
+  intro tid' t hget e k chk hfl
+  cases stepTask_fstep w tid hF with
+  | unchanged h => rw [h] at hget; exact others tid' t hget e k chk hfl
+  | landed t' h hn =>
+    rw [h, AMap.get?_insert] at hget
+    by_cases he : tid = tid'
+    · simp only [he, if_true, Option.some.injEq] at hget
+      subst hget; rw [hn] at hfl; cases hfl
+    · simp only [he, if_false] at hget
+      exact others tid' t hget e k chk hfl
+  | flying t' h e' k' chk' hf hfresh hmem =>
+    rw [h, AMap.get?_insert] at hget
+    by_cases he : tid = tid'
+    · simp only [he, if_true, Option.some.injEq] at hget
+      subst hget
+      rw [hf] at hfl
+      simp only [Option.some.injEq, Prod.mk.injEq] at hfl
+      obtain ⟨rfl, rfl, rfl⟩ := hfl
+      exact ⟨hfresh, hmem⟩
+    · simp only [he, if_false] at hget
+      exact others tid' t hget e k chk hfl
+
+/-- no append is in flight on node `n` -/
+def quietOn (w : World) (n : Nat) : Prop :=
+  ∀ tid t, w.tasks.get? tid = some t → ∀ e k chk, flightOn t = some (e, k, chk) → e ≠ n
+
+/-- the schedule applies a log entry on a node only while no append is in flight there, and spawns tasks in their
+initial states -/
+def QuietSchedule : World → List Act → Prop
+  | _, [] => True
+  | w, a :: r =>
+    (match a with
+     | .apply n => quietOn w n
+     | .spawn _ t => flightOn t = none ∧ holds t = none
+     | _ => True) ∧ QuietSchedule (act w a) r
+
+theorem flightInv_act (w : World) (a : Act) (hq : match a with
+     | .apply n => quietOn w n
+     | .spawn _ t => flightOn t = none ∧ holds t = none
+     | _ => True) (hL : LeaseInv w) (hF : FlightInv w) : FlightInv (act w a) := by
+  cases a with
+  | step tid => exact flightInv_step w tid hL hF
+  | apply n =>
+    intro tid t hget e k chk hfl
+    have ht : (applyNext w n).1.tasks = w.tasks := by unfold applyNext; simp only; split <;> rfl
+    have hget' : w.tasks.get? tid = some t := by
+      have : (act w (.apply n)).tasks = w.tasks := ht
+      rw [this] at hget; exact hget
+    have hne : e ≠ n := hq tid t hget' e k chk hfl
+    have hnode : (act w (.apply n)).node e = w.node e := by
+      show (applyNext w n).1.node e = w.node e
+      unfold applyNext; simp only
+      split
+      · rfl
+      · rw [node_setNode]; simp [Ne.symm hne]
+    rw [hnode]; exact hF tid t hget' e k chk hfl
+  | sync n =>
+    intro tid t hget e k chk hfl
+    have hget' : w.tasks.get? tid = some t := hget
+    obtain ⟨h1, h2⟩ := hF tid t hget' e k chk hfl
+    obtain ⟨h3, h4⟩ := fresh_coreStep _ _ e (hL e) h1 (core_setNode_refresh w n e)
+    show freshNode ((w.setNode n (updateLeases (w.node n) n)).node e) ∧
+      (chk = true → k ∈ ((w.setNode n (updateLeases (w.node n) n)).node e).leases)
+    exact ⟨h3, fun hc => by rw [h4]; exact h2 hc⟩
+  | spawn tid' t' =>
+    intro tid t hget e k chk hfl
+    simp only [act] at hget
+    rw [AMap.get?_insert] at hget
+    by_cases he : tid' = tid
+    · simp only [he, if_true, Option.some.injEq] at hget
+      subst hget; rw [hq.1] at hfl; cases hfl
+    · simp only [he, if_false] at hget
+      exact hF tid t hget e k chk hfl
+
+/-- every write so far went into a segment the writing node's applied metadata had open and assigned to it -/
+def AllOwned (w : World) : Prop := ∀ ev ∈ w.writes, ev.ownedAtWrite = true
+
+theorem allOwned_step (w : World) (tid : Nat) (hL : LeaseInv w) (hF : FlightInv w) (h : AllOwned w) :
+    AllOwned (stepTask w tid).1 := by
+  rcases stepTask_writes w tid with hw | ⟨c, hc, hw⟩
+  · unfold AllOwned; rw [hw]; exact h
+  · unfold AllOwned; rw [hw]
+    intro ev hev
+    rw [List.mem_append] at hev
+    rcases hev with hev | hev
+    · exact h ev hev
+    · simp only [List.mem_singleton] at hev
+      subst hev
+      obtain ⟨hf, hm⟩ := hF tid _ hc c.e c.key true rfl
+      apply writeEvOf_ok w c hL
+      simp only [writeEvOf, Bool.and_eq_true, decide_eq_true_eq]
+      exact ⟨hf, by simpa using hm rfl⟩
+
+theorem allOwned_quiet (w : World) (as : List Act) (hq : QuietSchedule w as) (hL : LeaseInv w) (hF : FlightInv w)
+    (h : AllOwned w) : AllOwned (runActs w as) := by
+  induction as generalizing w with
+  | nil => exact h
+  | cons a r ih =>
+    obtain ⟨hqa, hqr⟩ := hq
+    refine ih _ hqr (leaseInv_act w a hL) (flightInv_act w a hqa hL hF) ?_
+    cases a with
+    | step tid => exact allOwned_step w tid hL hF h
+    | apply n => unfold AllOwned; show ∀ ev ∈ (applyNext w n).1.writes, _; rw [applyNext_writes]; exact h
+    | sync n => exact h
+    | spawn tid t => exact h
+
+
+/-- executable form of `quietOn` / `QuietSchedule` (sound: used for concrete schedules) -/
+def quietOnB (w : World) (n : Nat) : Bool :=
+  List.all w.tasks fun p => match flightOn p.2 with | some (e, _, _) => e != n | none => true
+
+theorem mem_of_get? {κ ν : Type} [DecidableEq κ] (m : AMap κ ν) (k : κ) (v : ν) (h : m.get? k = some v) : (k, v) ∈ m := by
+  induction m with
+  | nil => simp [AMap.get?] at h
+  | cons p r ih =>
+    obtain ⟨k', v'⟩ := p
+    by_cases hk : k' = k
+    · simp only [AMap.get?, hk, if_true, Option.some.injEq] at h
+      subst hk; subst h; exact List.mem_cons_self
+    · simp only [AMap.get?, hk, if_false] at h
+      exact List.mem_cons_of_mem _ (ih h)
+
+theorem quietOnB_sound (w : World) (n : Nat) (h : quietOnB w n = true) : quietOn w n := by
+  intro tid t hget e k chk hfl
+  unfold quietOnB at h
+  rw [List.all_eq_true] at h
+  have := h (tid, t) (mem_of_get? _ _ _ hget)
+  simp only [hfl] at this
+  simpa using this
+
+def quietScheduleB : World → List Act → Bool
+  | _, [] => true
+  | w, a :: r =>
+    (match a with
+     | .apply n => quietOnB w n
+     | .spawn _ t => (flightOn t).isNone && (holds t).isNone
+     | _ => true) && quietScheduleB (act w a) r
+
+theorem quietScheduleB_sound (w : World) (as : List Act) (h : quietScheduleB w as = true) : QuietSchedule w as := by
+  induction as generalizing w with
+  | nil => trivial
+  | cons a r ih =>
+    unfold quietScheduleB at h
+    rw [Bool.and_eq_true] at h
+    refine ⟨?_, ih _ h.2⟩
+    cases a with
+    | step tid => trivial
+    | apply n => exact quietOnB_sound w n h.1
+    | sync n => trivial
+    | spawn tid t =>
+      have := h.1
+      simp only [Bool.and_eq_true, Option.isNone_iff_eq_none] at this
+      exact this
